@@ -28,6 +28,7 @@ type Config struct {
 	MaxWitness    int
 	BudgetViolation bool
 	SolverTimeoutMs int
+	CrossEvery      int
 	SolverKind      string
 	SolverFallback  bool
 	MaxTimerFires int
@@ -181,6 +182,7 @@ func NewEngine(prog *ssa.Program, cfg Config) (*Engine, error) {
 		e.Cfg.MaxViolations = 8
 	}
 	sol.Fallback = cfg.SolverFallback
+	sol.CrossEvery = cfg.CrossEvery
 	e.initStubs()
 	return e, nil
 }
